@@ -3,7 +3,6 @@ use std::char::DecodeUtf16Error;
 use std::collections::{BTreeMap, BTreeSet, HashMap, HashSet, LinkedList};
 use std::hash::Hash;
 use std::marker::PhantomData;
-use std::mem::MaybeUninit;
 use std::rc::Rc;
 use std::sync::Arc;
 use std::time::Duration;
@@ -319,15 +318,30 @@ impl<T: BinaryDeserializer, const L: usize> BinaryDeserializer for [T; L] {
         let empty: [T; 0] = [];
         if cast!(empty, [u8; 0]).is_ok() {
             let length = context.read_var_u32()?; // NOTE: this is inconsistent with the generic case, but this way it is compatible with the Scala version's Chunk serializer
-            let bytes = context.read_bytes(length as usize)?;
-            Ok(unsafe { std::mem::transmute_copy::<_, [T; L]>(&bytes) })
-        } else {
-            let mut array: [MaybeUninit<T>; L] = unsafe { MaybeUninit::uninit().assume_init() };
-            for (target, item) in array.iter_mut().zip(deserialize_iterator(context)) {
-                *target = MaybeUninit::new(item?);
+            if length as usize != L {
+                return Err(Error::DeserializationFailure(format!(
+                    "Failed to deserialize array of length {L}: serialized length is {length}"
+                )));
             }
-            let array: [T; L] = unsafe { std::mem::transmute_copy(&array) };
-            Ok(array)
+            let bytes: [u8; L] = context.read_bytes(L)?.try_into()?;
+            // T is u8 here, so [u8; L] and [T; L] are the same type
+            Ok(unsafe { std::mem::transmute_copy::<[u8; L], [T; L]>(&bytes) })
+        } else {
+            let mut items: Vec<T> = Vec::with_capacity(L);
+            for item in deserialize_iterator(context) {
+                if items.len() == L {
+                    return Err(Error::DeserializationFailure(format!(
+                        "Failed to deserialize array of length {L}: too many serialized items"
+                    )));
+                }
+                items.push(item?);
+            }
+            items.try_into().map_err(|items: Vec<T>| {
+                Error::DeserializationFailure(format!(
+                    "Failed to deserialize array of length {L}: only {} serialized items",
+                    items.len()
+                ))
+            })
         }
     }
 }
